@@ -219,13 +219,14 @@ class GIsoCmdHelper(FormulaHelper):
         parser.description = iso_description.format(parser.prog)
 
         parser.add_argument('G',action=ObtainSimpleGraph)
-        parser.add_argument('-e', metavar='G2',action=ObtainSimpleGraph)
+        parser.add_argument('-e', metavar='G2', dest='G2', default=None,
+                            action=ObtainSimpleGraph)
 
 
     @staticmethod
     def build_formula(args, formula_class):
         G = args.G
-        if hasattr(args, 'G2'):
+        if getattr(args, 'G2', None) is not None:
             G2 = args.G2
             return GraphIsomorphism(G, G2,
                                     formula_class=formula_class)
